@@ -113,7 +113,7 @@ let () =
           let e = expr_of e in
           let en = env_of (Str "") cmds in
           let b x = Atom (if x then "1" else "0") in
-          List [b (Extracted.Domain.coq_C01_domain e); b (Extracted.Domain.coq_C01_env_ok e en)]
+          List [b (Extracted.Domain.coq_C01_domain e); b (Extracted.Domain.coq_C01_env_ok e en); b (Extracted.Domain.coq_C01_tail_only e)]
       | _ -> raise (Shape "domain args"))
 
 let linked = ()
